@@ -545,6 +545,10 @@ def _c05_family(tier, seed):
         ("a\n\r", "try_catch_raise_nested< seq< any, any, must< eof > > >"),
         ("a\nb", "seq< star< not_one< 'b' > >, sor< eof, raise_message< 'e', 'n', 'd' > > >"),
         ("a\r\n", "list_must< one< 'a' >, eol >"),
+        # multi-byte literals that contain the eol character, consumed before the failing must rule
+        ("a\nb", "seq< star< istring< 'A', '\\n' > >, must< one< 'b' >, eof > >"),
+        ("a\nb", "seq< opt< string< 'a', '\\n', 'a' > >, star< istring< 'a' > >, must< eolf > >"),
+        ("a\r\n", "seq< star< sor< string< '\\r', '\\n' >, one< 'a' > > >, must< eof > >"),
     ]:
         g = _mk(body, ["c05", "c05:pos", "raise"], alphabet=al)
         out.append(g)
